@@ -95,7 +95,7 @@ func (v DenseReal32Vector) SLICE(i, j int) DenseReal32Vector {
   if j > len(v) {
     panic("slice bounds out of range")
   }
-  return v[i:j]
+  return v[i:j:j]
 }
 func (v DenseReal32Vector) APPEND(w DenseReal32Vector) DenseReal32Vector {
   return append(v, w...)
@@ -233,7 +233,7 @@ func (v DenseReal32Vector) MagicSlice(i, j int) MagicVector {
   if j > len(v) {
     panic("slice bounds out of range")
   }
-  return v[i:j]
+  return v[i:j:j]
 }
 func (v DenseReal32Vector) ResetDerivatives() {
   for i := 0; i < len(v); i++ {
